@@ -804,6 +804,7 @@ def gen_malformed(tier, rng):
         mk4 = lambda rk: [rint(rng, (rk[i], ins[i], outs[i], rk[i + 1])) for i in range(n)]
         b = list(rk); b[0] = 2; yield dict(kind="ttm", cores=mk4(b), why="first boundary rank is not 1")
         b = list(rk); b[-1] = 3; yield dict(kind="ttm", cores=mk4(b), why="last boundary rank is not 1")
+        b = list(rk); b[0] = b[-1] = 2; yield dict(kind="ttm", cores=mk4(b), why="both boundary ranks are 2 (an open chain, not a ring: einsum sums over each separately)")
         if n >= 2:
             cs = mk4(rk); cs[0] = rint(rng, (1, ins[0], outs[0], rk[1] + 1)); yield dict(kind="ttm", cores=cs, why="consecutive ranks differ")
         ins2 = [rng.randint(1, 2) for _ in range(2)]; outs2 = [rng.randint(1, 2) for _ in range(2)]; rr = rng.choice([2, 3])
